@@ -44,10 +44,12 @@ func (c Cipher) DecryptReader(key []byte, stream filesystem.Reader) (reader file
 		fileCipher cipherfs.Cipher
 	)
 	if _, err = io.ReadFull(stream, p); err != nil {
+		stream.Close()
 		return nil, err
 	}
 	ckey = NewCipherKey(p)
 	if fileCipher = c.mapping[ckey]; fileCipher == nil {
+		stream.Close()
 		return nil, goaterr.Errorf("Unknow cipher for %v key", ckey)
 	}
 	return fileCipher.DecryptReader(key, stream)
